@@ -10,7 +10,12 @@ import (
 // ClosedProfile is soup that cannot open a fenced code block or an HTML block
 // and contains no CR; '[' is excluded as well when noBracket is set.
 func closedProfile(noBracket bool) *Profile {
-	p := &Profile{Name: "closed", ForbidBytes: "\r<", ForbidSubstr: []string{"```", "~~~"}, NoHTML: true}
+	// '<' is forbidden (it could open an HTML block at a line start) except
+	// inside the extra tokens below, which begin with a word and therefore can
+	// only be inline raw HTML; they carry \x1e in place of '<' until the
+	// document is assembled.
+	p := &Profile{Name: "closed", ForbidBytes: "\r<", ForbidSubstr: []string{"```", "~~~"}, NoHTML: true,
+		Extra: []string{"x \x1e? y", "a \x1e!-- b", "c \x1e!X d", "e \x1e![CDATA[ f", "g \x1eb> h", "i \x1e/b> j", "k \x1ea href=\"u\" l", "m \x1e?php z ?> n", "o \x1e!-- p --> q"}}
 	if noBracket {
 		p.ForbidBytes += "["
 		p.Name = "closed-nobracket"
@@ -108,5 +113,5 @@ func ClosedDocWith(t *rapid.T, p *Profile, maxTok int, label string, hook func([
 		}
 		doc = append(doc, "end\n"...)
 	}
-	return doc
+	return bytes.ReplaceAll(doc, []byte{0x1e}, []byte("<"))
 }
